@@ -167,7 +167,7 @@ func (P *Program) genVCWith(key string, known map[string]Finding) (*gen, error) 
 		g = &gen{P: P, fn: fn, fs: fs, c: newSmtCtx(fs.Strings), key: key, name: shortKey(key),
 			oblNames: map[string]int{}, allVars: allVars, loopMods: loopMods, loopModsN: map[string]map[string]bool{},
 			deferIdx: map[*ssa.Defer]int{}, counters: map[string]int{}, used: map[string]bool{}, snapNames: map[string]bool{},
-			loopInfos: map[*ssa.Function]*loopInfo{}, lockSiteOrd: map[interface{}]int{}, rangeIters: map[*ssa.Range]int{}, iterFacts: map[int][3]string{}}
+			loopInfos: map[*ssa.Function]*loopInfo{}, localCell: map[string]string{}, lockSiteOrd: map[interface{}]int{}, rangeIters: map[*ssa.Range]int{}, iterFacts: map[int][3]string{}}
 		g.known = known
 		g.run()
 		stable := !g.newVars
@@ -424,6 +424,7 @@ func (g *gen) checkExit(n *node, st *State, results []Val, panicking bool) {
 		g.addObl(n, "lock-leak", nm, "locks held at exit equal locks held at entry", "", app("=", h, h0), false)
 	}
 	if !panicking {
+		g.checkTypeInvs(n, st, results)
 		g.checkFrame(n, st, old)
 		g.addObl(n, "smoke", "smoke:exit", "exit reachable under all assumptions", "", "false", false)
 	}
@@ -497,7 +498,7 @@ func (g *gen) checkFrame(n *node, st, old *State) {
 	sort.Strings(names)
 	nx0 := g.svGet(old, "$nxt", "Int")
 	for _, name := range names {
-		if strings.HasPrefix(name, "snap.") || strings.HasPrefix(name, "$defer.") || strings.HasPrefix(name, "$it.") || name == "$nxt" || name == "$held" {
+		if strings.HasPrefix(name, "snap.") || strings.HasPrefix(name, "$defer.") || strings.HasPrefix(name, "$it.") || strings.HasPrefix(name, "L.") || name == "$nxt" || name == "$held" {
 			continue
 		}
 		srt := g.allVars[name]
@@ -533,4 +534,75 @@ func (g *gen) checkFrame(n *node, st, old *State) {
 		}
 		g.addObl(n, "frame", "frame:"+name, "not listed in modifies: "+name, fs.File, t, false)
 	}
+}
+
+// checkTypeInvs: constructors prove the type invariant of what they return.
+func (g *gen) checkTypeInvs(n *node, st *State, results []Val) {
+	sig := g.fn.Signature
+	for i := 0; i < sig.Results().Len() && i < len(results); i++ {
+		rt := sig.Results().At(i).Type()
+		ti := g.typeInvFor(rt)
+		if ti == nil || ti.Assumed {
+			continue
+		}
+		isCtor := false
+		for _, b := range ti.By {
+			if b == g.key {
+				isCtor = true
+			}
+		}
+		if !isCtor {
+			continue
+		}
+		term, ok := results[i].(string)
+		if !ok {
+			continue
+		}
+		g.inTypeInv = true
+		e := &env{g: g, vars: map[string]binding{ti.Var: {term, xtOf(rt)}}, st: st, old: st, pkgPath: ti.PkgPath, imports: ti.Imports}
+		tt, err := e.trBool(ti.E)
+		g.inTypeInv = false
+		if err != nil {
+			g.errorf("typeinv %s: %v", ti.Type, err)
+			continue
+		}
+		g.addObl(n, "typeinv", "typeinv:"+ti.Type, ti.Src, g.fs.File, implies(not(app("=", term, "null")), tt), false)
+	}
+}
+
+// checkTypeInvAllocs: objects of a type with a verified type invariant are only allocated
+// by its declared constructors.
+func (P *Program) checkTypeInvAllocs() []string {
+	var errs []string
+	for _, ti := range P.spec.TypeInvs {
+		if ti.Assumed {
+			continue
+		}
+		for key, fn := range P.funcs {
+			isCtor := false
+			for _, b := range ti.By {
+				if b == key {
+					isCtor = true
+				}
+			}
+			if isCtor {
+				continue
+			}
+			for _, b := range fn.Blocks {
+				for _, in := range b.Instrs {
+					if a, ok := in.(*ssa.Alloc); ok {
+						el := a.Type().Underlying().(*types.Pointer).Elem()
+						if k, ok := namedStructKey(el); ok && k == ti.PkgPath+"."+ti.Type {
+							if fn.Pkg != nil && strings.HasSuffix(P.sprog.Fset.Position(a.Pos()).Filename, "_test.go") {
+								continue
+							}
+							errs = append(errs, fmt.Sprintf("%s allocates %s but is not one of its declared constructors (typeinv ... by ...)", key, k))
+						}
+					}
+				}
+			}
+		}
+	}
+	sort.Strings(errs)
+	return errs
 }
